@@ -388,45 +388,48 @@ func runC16(p *core.Prog, r *core.Report) {
 		resT := p.Named(pkgWork, "Result")
 		// InvalidArgument → final (Result.Error is the raw error)
 		okFinal, okRetry := false, false
-		core.Instrs(wf, func(in ssa.Instruction) {
-			ifi, ok := in.(*ssa.If)
-			if !ok {
-				return
-			}
-			onT, _, ok := core.CondRelation(ifi.Cond, func(v ssa.Value) bool {
-				c, ok := v.(*ssa.Call)
-				return ok && core.CommonCallee(c.Common()) != nil && core.CommonCallee(c.Common()).Name() == "Code"
-			}, func(v ssa.Value) bool {
-				k, ok := v.(*ssa.Const)
-				return ok && k.Value != nil && k.Value.ExactString() == "3"
-			})
-			if !ok || onT != core.OrdEQ {
-				return
-			}
-			classifyBlock := func(b *ssa.BasicBlock) string {
-				for _, x := range b.Instrs {
-					if al, ok := x.(*ssa.Alloc); ok {
-						if pt, ok := al.Type().(*types.Pointer); ok {
-							if n, ok := pt.Elem().(*types.Named); ok && n.Obj() == resT.Obj() {
-								for _, v := range core.LiteralFields(al)["Error"] {
-									if core.Trace(v, 0).HasCall(nre) {
-										return "retryable"
+		// (in work or in the helper of its family that classifies the receive error)
+		for _, member := range core.Family(wf, 1) {
+			core.Instrs(member, func(in ssa.Instruction) {
+				ifi, ok := in.(*ssa.If)
+				if !ok {
+					return
+				}
+				onT, _, ok := core.CondRelation(ifi.Cond, func(v ssa.Value) bool {
+					c, ok := v.(*ssa.Call)
+					return ok && core.CommonCallee(c.Common()) != nil && core.CommonCallee(c.Common()).Name() == "Code"
+				}, func(v ssa.Value) bool {
+					k, ok := v.(*ssa.Const)
+					return ok && k.Value != nil && k.Value.ExactString() == "3"
+				})
+				if !ok || onT != core.OrdEQ {
+					return
+				}
+				classifyBlock := func(b *ssa.BasicBlock) string {
+					for _, x := range b.Instrs {
+						if al, ok := x.(*ssa.Alloc); ok {
+							if pt, ok := al.Type().(*types.Pointer); ok {
+								if n, ok := pt.Elem().(*types.Named); ok && n.Obj() == resT.Obj() {
+									for _, v := range core.LiteralFields(al)["Error"] {
+										if core.Trace(v, 0).HasCall(nre) {
+											return "retryable"
+										}
+										return "final"
 									}
-									return "final"
 								}
 							}
 						}
 					}
+					return "?"
 				}
-				return "?"
-			}
-			if classifyBlock(ifi.Block().Succs[0]) == "final" {
-				okFinal = true
-			}
-			if classifyBlock(ifi.Block().Succs[1]) == "retryable" {
-				okRetry = true
-			}
-		})
+				if classifyBlock(ifi.Block().Succs[0]) == "final" {
+					okFinal = true
+				}
+				if classifyBlock(ifi.Block().Succs[1]) == "retryable" {
+					okRetry = true
+				}
+			})
+		}
 		// no silent success: once Recv failed with something else than io.EOF, every Result returned before the next Recv
 		// carries an error that cannot be nil (the receive error itself, a constructed error, or ctx.Err() where it was tested)
 		var recv *ssa.Call
@@ -444,9 +447,44 @@ func runC16(p *core.Prog, r *core.Report) {
 				rerr = ex
 			}
 		}
+		// the classification may live in a helper that is handed the receive error and whose Result is returned as is
+		cf, recvBlock := wf, recv.Block()
+		if rerr != nil {
+			for _, ref := range *rerr.Referrers() {
+				c, ok := ref.(*ssa.Call)
+				if !ok {
+					continue
+				}
+				callee := core.StaticFn(c.Common())
+				if callee == nil || callee.Pkg != wf.Pkg || callee.Blocks == nil {
+					continue
+				}
+				returned := false
+				core.Instrs(wf, func(x ssa.Instruction) {
+					if ret, ok := x.(*ssa.Return); ok {
+						for _, rv := range core.ReturnValues(ret) {
+							if rv == ssa.Value(c) {
+								returned = true
+							}
+						}
+					}
+				})
+				if n, ok := c.Type().(*types.Pointer); !ok || !returned {
+					continue
+				} else if nn, ok := n.Elem().(*types.Named); !ok || nn.Obj() != resT.Obj() {
+					continue
+				}
+				for i, a := range c.Call.Args {
+					if a == rerr {
+						cf, rerr, recvBlock = callee, callee.Params[i], nil
+					}
+				}
+				break
+			}
+		}
 		var nonEOF []core.Edge
 		var ctxErrEdges []core.Edge
-		core.Instrs(wf, func(in ssa.Instruction) {
+		core.Instrs(cf, func(in ssa.Instruction) {
 			ifi, ok := in.(*ssa.If)
 			if !ok {
 				return
@@ -489,7 +527,7 @@ func runC16(p *core.Prog, r *core.Report) {
 			for len(stk) > 0 {
 				b := stk[len(stk)-1]
 				stk = stk[:len(stk)-1]
-				if region[b] || b == recv.Block() {
+				if region[b] || b == recvBlock {
 					continue
 				}
 				region[b] = true
@@ -528,13 +566,13 @@ func runC16(p *core.Prog, r *core.Report) {
 							break
 						}
 						switch x := v.(type) {
-						case *ssa.Extract:
-							if ssa.Value(x) != rerr {
+						case *ssa.Extract, *ssa.Parameter:
+							if v != rerr {
 								badRes = "Result.Error from another value at " + p.Pos(al.Pos())
 							}
 						case *ssa.Call:
 							if x.Call.IsInvoke() && x.Call.Method.Name() == "Err" {
-								q := core.PathQuery{Fn: wf, CutEdge: func(e core.Edge) bool { return containsEdge(ctxErrEdges, e) }}
+								q := core.PathQuery{Fn: cf, CutEdge: func(e core.Edge) bool { return containsEdge(ctxErrEdges, e) }}
 								if _, reach := q.CanReach(start.Instrs[0], func(y ssa.Instruction) bool { return y == ssa.Instruction(al) }); reach || len(ctxErrEdges) == 0 {
 									badRes = "Result.Error = ctx.Err() where ctx.Err() was not tested non-nil, at " + p.Pos(al.Pos())
 								}
